@@ -103,11 +103,21 @@ func (c *cntApp) Append(bs []byte) (int64, int, error) {
 
 var quiet = logger.NewSimpleLoggerWithLevel("vh", io.Discard, logger.LogError)
 
+// limits and buffers far below the defaults: opening a store allocates (and clears) a pool of
+// MaxConcurrency transactions of MaxTxEntries x MaxKeyLen bytes and 4 MB write buffers
+func smallOpts() *store.Options {
+	return store.DefaultOptions().WithLogger(quiet).WithSynced(false).
+		WithMaxTxEntries(8).WithMaxKeyLen(32).WithMaxValueLen(1 << 13).WithMaxConcurrency(8).
+		WithWriteBufferSize(1 << 14).
+		WithAHTOptions(store.DefaultAHTOptions().WithWriteBufferSize(1 << 14)).
+		WithIndexOptions(store.DefaultIndexOptions().WithCacheSize(64).WithFlushBufferSize(1 << 14))
+}
+
 func storeOpts(s *Scenario, ev *evLog) *store.Options {
 	// the small file size is given to the value logs only (through the app factory); the tx log,
 	// commit log and hash-tree logs keep the default so that opening a store stays cheap.  With
 	// embedded values the values sit in the tx log, which gets the small size then.
-	o := store.DefaultOptions().WithLogger(quiet).WithSynced(false).
+	o := smallOpts().
 		WithMaxIOConcurrency(s.MaxIO).WithEmbeddedValues(s.Emb).
 		WithVLogCacheSize(s.Cache)
 	fsz := s.Fsz
@@ -176,6 +186,9 @@ type world struct {
 
 const livenessBound = 2 * time.Second
 
+var errStuck = errors.New("store stuck")
+var errGiveUp = errors.New("too many scenarios could not be completed")
+
 func (w *world) finding(s string) {
 	w.direct = append(w.direct, s)
 	w.r.Finding(s)
@@ -228,10 +241,21 @@ func (w *world) launch(id uint64, abort bool) error {
 	if w.scn.Emb {
 		want = 0
 	}
-	deadline := time.Now().Add(5 * time.Second)
+	deadline := time.Now().Add(60 * time.Second)
 	for w.ev.count() < before+want {
 		if time.Now().After(deadline) {
-			return fmt.Errorf("committer %d did not append its values", id)
+			// a committer that cannot even reach its value log: the store is stuck (e.g. a value
+			// log was never released); this is a liveness failure of the implementation
+			w.finding(fmt.Sprintf("committer of tx %d could not append its values within 60s (store stuck after the preceding operations); %s", id, w.desc()))
+			return errStuck
+		}
+		select {
+		case err := <-ch:
+			if !abort || err == nil {
+				return fmt.Errorf("ReplicateTx(%d) returned before appending its values: %v", id, err)
+			}
+			ch <- err
+		default:
 		}
 		time.Sleep(50 * time.Microsecond)
 	}
@@ -344,10 +368,6 @@ func (w *world) truncate(n uint64) {
 		for _, id := range st {
 			w.exposed[id] = n
 		}
-	}
-	committedN := w.nextID - 1
-	if code == 0 && (n == 0 || n > committedN) && !w.scn.Emb {
-		w.finding(fmt.Sprintf("TruncateUptoTx(%d) succeeded with %d committed transactions; %s", n, committedN, w.desc()))
 	}
 }
 
@@ -702,7 +722,7 @@ func buildPrimary(txs [][]KV) ([][]byte, []*store.TxHeader, error) {
 		return nil, nil, err
 	}
 	defer os.RemoveAll(dir)
-	st, err := store.Open(dir, store.DefaultOptions().WithLogger(quiet).WithSynced(false))
+	st, err := store.Open(dir, smallOpts())
 	if err != nil {
 		return nil, nil, err
 	}
@@ -743,17 +763,58 @@ func buildPrimary(txs [][]KV) ([][]byte, []*store.TxHeader, error) {
 
 type shared struct {
 	blockedN int
-	racy     int
+	failed   int
+	prim     map[string]*primary // exports of a primary history, reused by the every-cut-point family
 }
 
+type primary struct {
+	exps [][]byte
+	hdrs []*store.TxHeader
+}
+
+// runScenario runs one scenario under a watchdog: a store call that never returns (other than
+// the bounded ExportTx probes) is reported as a finding and the scenario is abandoned
 func runScenario(r *vk.Run, scn *Scenario, sh *shared, bucketPrefix string) error {
+	done := make(chan error, 1)
+	go func() { done <- runScenario1(r, scn, sh, bucketPrefix) }()
+	select {
+	case err := <-done:
+		if err != nil {
+			// a scenario that cannot be carried through is reported with its replay instead of
+			// aborting the run (which would drop the findings collected so far)
+			sh.failed++
+			b, _ := json.Marshal(scn)
+			r.Finding(fmt.Sprintf("scenario could not be completed: %v; %s", err, b))
+			if sh.failed > 5 {
+				return errGiveUp // the findings recorded so far are the report
+			}
+		}
+		return nil
+	case <-time.After(240 * time.Second):
+		b, _ := json.Marshal(scn)
+		r.Finding(fmt.Sprintf("scenario did not finish within 240s (a store call never returned); %s", b))
+		return errGiveUp
+	}
+}
+
+func runScenario1(r *vk.Run, scn *Scenario, sh *shared, bucketPrefix string) error {
 	if scn.Mode == "race" {
 		return runRace(r, scn, sh, bucketPrefix)
 	}
-	exps, hdrs, err := buildPrimary(scn.Txs)
-	if err != nil {
-		return err
+	key, _ := json.Marshal(scn.Txs)
+	if sh.prim == nil {
+		sh.prim = map[string]*primary{}
 	}
+	pr := sh.prim[string(key)]
+	if pr == nil {
+		exps, hdrs, err := buildPrimary(scn.Txs)
+		if err != nil {
+			return err
+		}
+		pr = &primary{exps, hdrs}
+		sh.prim = map[string]*primary{string(key): pr} // keep the latest only
+	}
+	exps, hdrs := pr.exps, pr.hdrs
 	dir, err := os.MkdirTemp("", "vh-c14-r")
 	if err != nil {
 		return err
@@ -776,10 +837,16 @@ func (w *world) play(bucketPrefix string) error {
 		switch a.Op {
 		case "launch":
 			if err := w.launch(a.ID, false); err != nil {
+				if err == errStuck {
+					return nil
+				}
 				return err
 			}
 		case "abort":
 			if err := w.launch(a.ID, true); err != nil {
+				if err == errStuck {
+					return nil
+				}
 				return err
 			}
 		case "trunc":
